@@ -16,6 +16,8 @@ type bodySpec struct {
 	ViaTf   bool   `json:"via_tf,omitempty"`   // ReadErr is returned by the client's response body transformer (progSpec.Transformer) after a clean read
 	Cut     string `json:"cut,omitempty"`      // the body ends before its declared end: length (fewer bytes than Content-Length) | chunked (no terminating chunk)
 	WriteErr int   `json:"write_err,omitempty"` // with progSpec.Save: tag the output writer returns when this body is written to it
+	CloseErr int   `json:"close_err,omitempty"` // with SaveKind closer: tag the output's Close returns after this body was copied to it
+	UmOnly  string `json:"um_only,omitempty"`  // with UmErr: the custom functions fail only for this target: res | req | com ("" = every target)
 	UmErr   int    `json:"um_err,omitempty"`   // with progSpec.UmCustom: tag the client's custom unmarshal functions return for this body (0: they decode)
 }
 
@@ -78,6 +80,7 @@ type progSpec struct {
 	UmCustom     bool      `json:"um_custom,omitempty"`    // custom JSON/XML unmarshal functions (SetJsonUnmarshal/SetXmlUnmarshal)
 	Unreplayable bool      `json:"unreplayable,omitempty"` // SetBody(io.Reader)
 	Save         bool      `json:"save,omitempty"`         // SetOutput(writer): the body is downloaded
+	SaveKind     string    `json:"save_kind,omitempty"`    // "" plain io.Writer | closer (an io.WriteCloser) | file (SetOutputFile)
 	Attempts []attemptSpec `json:"attempts"`
 }
 
@@ -124,6 +127,14 @@ func (p *progSpec) tfErr(b bodySpec) int {
 	return 0
 }
 
+// the class of the error a failing unmarshal into the given target (res | req | com) ends with
+func (p *progSpec) umClass(b bodySpec, target string) int {
+	if p.UmCustom && b.UmErr != 0 && (b.UmOnly == "" || b.UmOnly == target) {
+		return b.UmErr
+	}
+	return eUnmarshal
+}
+
 // obtaining the body fails one way or the other
 func (p *progSpec) bodyErr(b bodySpec) int {
 	if e := p.readerErr(b); e != 0 {
@@ -163,17 +174,18 @@ const eCut = -11 // io.ErrUnexpectedEOF: the body ended before its declared end
 
 func (p *progSpec) coqBody(b bodySpec) string {
 	um := p.refUnmarshalFails(b)
-	f := func(fails bool) string {
+	f0 := func(fails bool, target string) string {
 		if fails {
-			if p.UmCustom && b.UmErr != 0 {
-				return coqOptZ(b.UmErr)
-			}
-			return coqOptZ(eUnmarshal)
+			return coqOptZ(p.umClass(b, target))
 		}
 		return "None"
 	}
 	rd, tf := coqOptZ(p.readerErr(b)), coqOptZ(p.tfErr(b))
-	return fmt.Sprintf("(mkBody %s %s %s %s %s %s)", rd, tf, f(um[0]), f(um[1]), f(um[2]), coqOptZ(b.WriteErr))
+	cl := 0
+	if p.Save && p.SaveKind == "closer" {
+		cl = b.CloseErr
+	}
+	return fmt.Sprintf("(mkBody %s %s %s %s %s %s %s)", rd, tf, f0(um[0], "res"), f0(um[1], "req"), f0(um[2], "com"), coqOptZ(b.WriteErr), coqOptZ(cl))
 }
 
 func (p *progSpec) coqTout(t toutSpec) string {
